@@ -5,7 +5,7 @@ from . import values as V, tlc
 NOFAULT = {"k": 0, "mode": "none"}
 
 def pkey(ast):
-    return hashlib.sha1(json.dumps(ast, sort_keys=True).encode()).hexdigest()
+    return hashlib.sha1(json.dumps(ast, sort_keys=True, default=str).encode()).hexdigest()
 
 class Shards:
     """accumulates recorded calls and writes them as JSON shards with a shared program table"""
